@@ -16,6 +16,7 @@ PATTERNS = [
     r"celeritas::(Transformation|Translation)::(Transformation|Translation|data)$",
     r"celeritas::detail::import_transform$",
     r"celeritas::detail::QuadricPlaneConverter::operator\(\)$",
+    r"celeritas::detail::QuadricSphereConverter::operator\(\)$",
 ]
 
 
